@@ -16,7 +16,7 @@ RULE = ('Valid domain (85%): every scene class (layered, split_candidate, merge_
         'slicing / grouping / layering leaves, the shift-and-scale and step-scale slicing height modes via the global '
         'dict) x geoloc / ref_dt (None, str, datetime). Oracle: run() returns a CeiloChunk and metar_msg(which) a str '
         'for the three levels; any exception is a failure, bucketed by (exception type, innermost ampycloud frame). '
-        'Refusal domain (15%): frames the screening model rejects (duplicated row, type 0 + hit, VV + hit, missing '
+        'Stage sequences (30%): instead of run(), 2-8 stage / query calls in any order on one chunk; every call must return or raise AmpycloudError. Refusal domain (10%): frames the screening model rejects (duplicated row, type 0 + hit, VV + hit, missing '
         'column, empty, not a DataFrame) and out-of-order stage calls. Oracle: AmpycloudError and nothing else. '
         'Non-trivial = >= 2 non-default parameter leaves, or a class other than layered, or a refusal. Distinct by '
         '(class/kind, n_slices/n_groups/n_layers/ncomp pattern, set of non-default leaves, anomalies).')
@@ -38,7 +38,11 @@ def strategy_(draw):
                                 index_kinds=True))
     case['geoloc'] = draw(st.sampled_from([None, 'Somewhere', '', 'Zürich_#1 50%']))
     case['ref_dt'] = draw(st.sampled_from([None, '2024-01-01 00:00:00', 'datetime', 'whatever']))
-    if draw(st.integers(0, 99)) < 15:
+    if draw(st.integers(0, 99)) < 30:
+        # instead of run(): an arbitrary sequence of stage / query calls on one chunk
+        case['ops'] = draw(st.lists(st.sampled_from(['S', 'G', 'L', 'Ms', 'Mg', 'Ml', 'Qs', 'Qg', 'Ql', 'S', 'G', 'L']),
+                                    min_size=2, max_size=8))
+    elif draw(st.integers(0, 99)) < 15:
         case['refusal'] = draw(st.sampled_from(REFUSALS))
         if case['refusal'] in ('dup_row', 'type0_mix', 'vv_mix'):
             case['at'] = draw(st.integers(0, len(case['rows']) - 1))
@@ -131,6 +135,42 @@ def run_refusal(case, res):
         res.fail('refusal-type', f'{kind}: {observe.crash_sig(exc)}', repr(exc))
 
 
+def check_ops(case, res):
+    """ Any order of stage calls on a valid chunk: every call returns or raises AmpycloudError. """
+    from ampycloud.data import CeiloChunk
+    from ampycloud.errors import AmpycloudError
+    which = {'s': 'slices', 'g': 'groups', 'l': 'layers'}
+    done = []
+    try:
+        with observe.GlobalPrms(case.get('gprms')):
+            frame = S.apply_index(observe.build_frame(case['rows']), case.get('index', 'range'))
+            chunk = CeiloChunk(frame, prms=copy.deepcopy(case['prms']))
+            for op in case['ops']:
+                done.append(op)
+                try:
+                    if op == 'S':
+                        chunk.find_slices()
+                    elif op == 'G':
+                        chunk.find_groups()
+                    elif op == 'L':
+                        chunk.find_layers()
+                    elif op[0] == 'M':
+                        chunk.metarize(which[op[1]])
+                    else:
+                        out = chunk.metar_msg(which[op[1]])
+                        if not isinstance(out, str):
+                            res.fail('return', 'metar_msg did not return a str', repr(out))
+                except AmpycloudError:
+                    pass
+    except Exception as exc:
+        res.fail('crash', f'stage sequence: {observe.crash_sig(exc)}', f"after {','.join(done)}: {exc!r}"[:300])
+    res.nontrivial = True
+    res.labels.append('stage-sequence')
+    res.key = [case['cls'], 'ops', case['ops'], sorted(leaves(case['prms']))]
+    res.sample = {'cls': case['cls'], 'n_rows': len(case['rows']), 'prms': case['prms'], 'ops': case['ops']}
+    return res
+
+
 def check(case):
     res = Result()
     res.labels = [case['cls']]
@@ -141,6 +181,8 @@ def check(case):
         res.labels.append('refusal:' + case['refusal'])
         res.sample = {'refusal': case['refusal'], 'cls': case['cls'], 'n_rows': len(case['rows'])}
         return res
+    if case.get('ops'):
+        return check_ops(case, res)
     import ampycloud
     ref_dt = case.get('ref_dt')
     if ref_dt == 'datetime':
